@@ -141,9 +141,30 @@ type Layout struct {
 	Comments, Quotes, TJKern, Forms bool
 	BoxIndirect                     bool   // MediaBox arrays hold indirect references to number objects
 	ObjStmFilter                    string // "" seed-chosen | none | Fl | FlP1 (Flate with an explicit /Predictor 1)
+	// FontNameRot: every Resources dictionary (page, ancestor, form) names the
+	// document's fonts differently (/F1 is another font on another page), so a
+	// name resolved through the wrong or a stale dictionary decodes wrongly.
+	// FontsDirect: simple fonts may be written as direct dictionaries inside
+	// the /Font resource dictionary instead of indirect references.
+	// InlineImages: inline images (BI … ID data EI, with and without the PDF 2.0
+	// /L length entry, data full of token look-alikes) between the text objects.
+	FontNameRot, FontsDirect, InlineImages bool
 	// Mutate: a semantic fault applied while writing revision MutateRev (C02 only)
 	Mutate    *Mutation
 	MutateRev int
+}
+
+// NameRot tells how the Resources dictionary of an owner (a node id, or -1-id
+// for the own resources of the form drawn by leaf id) names the document's
+// fonts: name F(k+1) is font (k+rot) mod nFonts. 0 unless FontNameRot.
+func (l Layout) NameRot(owner, nFonts int) int {
+	if !l.FontNameRot || nFonts < 2 {
+		return 0
+	}
+	if owner < 0 {
+		return (-owner + 1) % nFonts
+	}
+	return owner % nFonts
 }
 
 // Built is the result of building a file.
@@ -269,6 +290,7 @@ func (b *builder) filtersFor(key string, dataLen int) []FilterStage {
 // contentStyle selects optional spellings of a content stream.
 type contentStyle struct {
 	comments, quotes, tjKern bool
+	inlineImg                bool
 	eol                      string
 	codeWidth                func(font int) int // bytes per character code
 }
@@ -294,8 +316,14 @@ func contentTokens(p *PageL, fontName func(int) string, r *rand.Rand, cs content
 		e.str(Str{B: b, Hex: r.Intn(3) == 0})
 		return e.Buf.String()
 	}
+	inlineImage := func() {
+		if cs.inlineImg && r.Intn(3) == 0 {
+			t = append(t, inlineImageToken(r))
+		}
+	}
 	oneBT := r.Intn(2) == 0
 	if oneBT && len(p.Lines) > 0 {
+		inlineImage()
 		t = append(t, "BT")
 		if cs.quotes {
 			t = append(t, "0", "TL") // ' and " move by the leading: zero keeps the line where Td/Tm put it
@@ -305,6 +333,7 @@ func contentTokens(p *PageL, fontName func(int) string, r *rand.Rand, cs content
 	for _, ln := range p.Lines {
 		comment()
 		if !oneBT {
+			inlineImage()
 			t = append(t, "BT")
 			px, py = 0, 0
 			if cs.quotes {
@@ -352,7 +381,64 @@ func contentTokens(p *PageL, fontName func(int) string, r *rand.Rand, cs content
 	if oneBT && len(p.Lines) > 0 {
 		t = append(t, "ET")
 	}
+	if len(p.Lines) > 0 {
+		inlineImage()
+	}
 	return t
+}
+
+// inlineImageToken renders one inline image as a single content token
+// (ISO 32000-1 8.9.7; /L from ISO 32000-2). The sample data are raw bytes
+// chosen to look like content-stream syntax — parentheses, dictionary and
+// comment delimiters, operators — but never contain "EI" after white space,
+// which is how a reader without /L finds the end.
+func inlineImageToken(r *rand.Rand) string {
+	w, h := 1+r.Intn(6), 1+r.Intn(6)
+	bpc, comps, cs := 8, 1, "/G"
+	switch r.Intn(4) {
+	case 0:
+		comps, cs = 3, "/RGB"
+	case 1:
+		cs = "/DeviceGray"
+	case 2:
+		bpc = []int{1, 2, 4}[r.Intn(3)]
+	}
+	n := ((w*comps*bpc + 7) / 8) * h
+	bait := []string{"(", ")", "<<", ">>", "%", " ET ", " BT ", "(x) Tj ", "[", "]", "xEIx", "EIEI", "\\", "/F1 9 Tf ", "<41>", "Q ", "endstream "}
+	data := make([]byte, 0, n)
+	for len(data) < n {
+		if r.Intn(3) == 0 {
+			data = append(data, bait[r.Intn(len(bait))]...)
+		} else {
+			data = append(data, byte(r.Intn(256)))
+		}
+	}
+	data = data[:n]
+	isWS := func(c byte) bool { return c == 0 || c == 9 || c == 10 || c == 12 || c == 13 || c == 32 }
+	for i := 0; i+1 < len(data); i++ {
+		if data[i] == 'E' && data[i+1] == 'I' && (i == 0 || isWS(data[i-1])) {
+			data[i] = 'F'
+		}
+	}
+	if len(data) > 0 && data[len(data)-1] == 'E' { // "…E" + "\nEI" is fine, but keep the end unambiguous
+		data[len(data)-1] = 'e'
+	}
+	long := r.Intn(2) == 0
+	key := func(short, full string) string {
+		if long {
+			return full
+		}
+		return short
+	}
+	var b strings.Builder
+	fmt.Fprintf(&b, "BI %s %d %s %d %s %d %s %s", key("/W", "/Width"), w, key("/H", "/Height"), h, key("/BPC", "/BitsPerComponent"), bpc, key("/CS", "/ColorSpace"), cs)
+	if r.Intn(2) == 0 {
+		fmt.Fprintf(&b, " %s %d", key("/L", "/Length"), len(data))
+	}
+	b.WriteString(" ID\n")
+	b.Write(data)
+	b.WriteString("\nEI")
+	return b.String()
 }
 
 // splitContent joins tokens into n streams, dividing only at token boundaries.
@@ -514,17 +600,45 @@ func (b *builder) materialize(d *Doc) (map[string]any, []string) {
 	for _, f := range d.Fonts {
 		b.fontObjects(f, objs)
 	}
-	fontDict := func(decoy bool) Dict {
+	nFonts := len(d.Fonts)
+	// rotOf: how the Resources dictionary of an owner (node id, or -1-id for a
+	// form's own resources) names the fonts: name F(k+1) is font (k+rot) mod n.
+	rotOf := func(owner int) int { return b.lay.NameRot(owner, nFonts) }
+	fontDict := func(decoy bool, rot int, who string) Dict {
 		fd := Dict{}
-		n := len(d.Fonts)
+		n := nFonts
 		for i := range d.Fonts {
-			j := i
+			j := (i + rot) % n
 			if decoy && n > 1 {
-				j = (i + 1) % n
+				j = (j + 1) % n
 			}
-			fd = append(fd, KV{fmt.Sprintf("F%d", i+1), Ref{fmt.Sprintf("font:%d", d.Fonts[j].ID)}})
+			var val any = Ref{fmt.Sprintf("font:%d", d.Fonts[j].ID)}
+			if b.lay.FontsDirect && d.Fonts[j].Kind != "type0-identity" {
+				if fdict, ok := objs[fmt.Sprintf("font:%d", d.Fonts[j].ID)].(Dict); ok && b.entRand("fontdirect:"+who+fmt.Sprint(i)).Intn(2) == 0 {
+					val = append(Dict{}, fdict...)
+					b.feat["res.font-direct"] = true
+				}
+			}
+			fd = append(fd, KV{fmt.Sprintf("F%d", i+1), val})
+		}
+		if rot != 0 {
+			b.feat["res.font-names-rotated"] = true
 		}
 		return fd
+	}
+	nameFor := func(rot int) func(int) string {
+		return func(fi int) string {
+			if nFonts == 0 {
+				return "F1"
+			}
+			return fmt.Sprintf("F%d", ((fi-rot)%nFonts+nFonts)%nFonts+1)
+		}
+	}
+	ownerRot := map[int]int{} // leaf id -> rotation of the Resources dictionary it uses
+	for _, lf := range d.Leaves() {
+		if own := lf.ResourcesOwner(); own != nil {
+			ownerRot[lf.Node.ID] = rotOf(own.ID)
+		}
 	}
 	var contentKeys []string
 	codeWidth := func(fi int) int {
@@ -533,13 +647,17 @@ func (b *builder) materialize(d *Doc) (map[string]any, []string) {
 		}
 		return 1
 	}
-	style := contentStyle{comments: b.lay.Comments, quotes: b.lay.Quotes, tjKern: b.lay.TJKern, eol: b.lay.EOL, codeWidth: codeWidth}
+	style := contentStyle{comments: b.lay.Comments, quotes: b.lay.Quotes, tjKern: b.lay.TJKern, inlineImg: b.lay.InlineImages, eol: b.lay.EOL, codeWidth: codeWidth}
+	if b.lay.InlineImages {
+		b.feat["content.inline-image"] = true
+	}
 	if style.eol == "" {
 		style.eol = "\n"
 	}
 	// Form XObjects: the trailing lines of some pages are drawn by a form. The
 	// form must be reachable through the Resources dictionary the page uses.
-	formLines := map[int]int{} // leaf id -> number of trailing lines moved into the form
+	formLines := map[int]int{} // leaf id -> number of lines moved into the form
+	formStart := map[int]int{} // leaf id -> index of the first of them
 	formsOf := map[int][]int{} // resources-owner node id -> leaf ids with a form
 	if b.lay.Forms {
 		for _, lf := range d.Leaves() {
@@ -548,6 +666,9 @@ func (b *builder) materialize(d *Doc) (map[string]any, []string) {
 			if len(pg.Lines) >= 2 && er.Intn(2) == 0 {
 				if own := lf.ResourcesOwner(); own != nil {
 					formLines[lf.Node.ID] = 1 + er.Intn(len(pg.Lines)-1)
+					// the form draws a run of lines anywhere on the page: text of the page
+					// itself may follow the Do (and must still use the page's resources)
+					formStart[lf.Node.ID] = er.Intn(len(pg.Lines) - formLines[lf.Node.ID] + 1)
 					formsOf[own.ID] = append(formsOf[own.ID], lf.Node.ID)
 					b.feat["content.form"] = true
 				}
@@ -585,7 +706,7 @@ func (b *builder) materialize(d *Doc) (map[string]any, []string) {
 			dict = append(dict, KV{"Rotate", *n.Rotate})
 		}
 		if n.Resources {
-			fd := fontDict(n.DecoyFonts)
+			fd := fontDict(n.DecoyFonts, rotOf(n.ID), key)
 			var res any
 			xo := Dict{}
 			for _, lid := range formsOf[n.ID] {
@@ -613,26 +734,37 @@ func (b *builder) materialize(d *Doc) (map[string]any, []string) {
 		count := 0
 		if n.Page != nil {
 			count = 1
-			fname := func(i int) string { return fmt.Sprintf("F%d", i+1) }
+			fname := nameFor(ownerRot[n.ID])
 			cr := b.entRand("content:" + key + fmt.Sprint(len(n.Page.Lines), pageSig(n.Page)))
 			pageLines := n.Page
+			var afterForm *PageL
 			if k := formLines[n.ID]; k > 0 {
-				cut := len(n.Page.Lines) - k
+				cut := formStart[n.ID]
 				pageLines = &PageL{ID: n.Page.ID, Lines: n.Page.Lines[:cut]}
+				if cut+k < len(n.Page.Lines) {
+					afterForm = &PageL{ID: n.Page.ID, Lines: n.Page.Lines[cut+k:]}
+					b.feat["content.text-after-form"] = true
+				}
 				fr := b.entRand("formcontent:" + key + pageSig(n.Page))
-				ftoks := contentTokens(&PageL{Lines: n.Page.Lines[cut:]}, fname, fr, style)
 				fd := Dict{{"Type", Name("XObject")}, {"Subtype", Name("Form")}, {"BBox", Arr{0, 0, 2000, 2000}}}
 				if fr.Intn(2) == 0 {
 					fd = append(fd, KV{"Matrix", Arr{1, 0, 0, 1, 0, 0}})
 				}
-				if fr.Intn(2) == 0 { // own resources (same font names) or the page's
-					fd = append(fd, KV{"Resources", Dict{{"Font", fontDict(false)}}})
+				formName := fname
+				if fr.Intn(2) == 0 { // own resources (its own naming of the fonts when FontNameRot) or the page's
+					frot := rotOf(-1 - n.ID)
+					fd = append(fd, KV{"Resources", Dict{{"Font", fontDict(false, frot, key+":form")}}})
+					formName = nameFor(frot)
 				}
+				ftoks := contentTokens(&PageL{Lines: n.Page.Lines[cut : cut+k]}, formName, fr, style)
 				objs[fmt.Sprintf("form:%d", n.ID)] = &Stream{D: fd, Raw: []byte(strings.Join(ftoks, " ") + style.eol)}
 			}
 			toks := contentTokens(pageLines, fname, cr, style)
 			if formLines[n.ID] > 0 {
 				toks = append(toks, "q", fmt.Sprintf("/Fm%d", n.ID), "Do", "Q")
+				if afterForm != nil {
+					toks = append(toks, contentTokens(afterForm, fname, cr, style)...)
+				}
 			}
 			if len(toks) > 0 {
 				er := b.entRand("split:" + key + pageSig(n.Page))
